@@ -98,30 +98,36 @@ Definition resolve (d : doc) (sp : list ospan) (a b : nat) : doc * list nat * bo
   end.
 
 (* get_insertion_anchor *)
+(* the anchor after a real span: the span may end in the middle of its run (a run with line breaks has several spans): split there *)
+Definition after_span (d : doc) (sp : list ospan) (s : ospan) : doc * option nat :=
+  let ro := offset_in_run sp s + length (o_text s) in
+  if ro <? length (run_text (run_kids (o_uid s) d)) then let '(d', l, _) := do_split d (o_uid s) ro in (d', Some l)
+  else (d, Some (o_uid s)).
+(* last real span ending before the index (fix D49: same treatment as a span ending at the index) *)
+Definition gap_anchor (d : doc) (sp : list ospan) (index : nat) : doc * option nat :=
+  match last_opt (filter (fun s => o_real s && (o_end s <? index)) sp) with
+  | Some s => after_span d sp s
+  | None => (d, None) end.
 Definition insertion_anchor (d : doc) (sp : list ospan) (index : nat) : doc * option nat :=
   let prec := filter (fun s => Nat.eqb (o_end s) index) sp in
   match last_opt prec with
-  | Some s => if o_real s then
-                (* the span may end in the middle of its run (a run with line breaks has several spans): split there *)
-                let ro := offset_in_run sp s + length (o_text s) in
-                if ro <? length (run_text (run_kids (o_uid s) d)) then let '(d', l, _) := do_split d (o_uid s) ro in (d', Some l)
-                else (d, Some (o_uid s))
+  | Some s => if o_real s then after_span d sp s
               else
       (* fall through *)
       match filter (fun s => (o_start s <? index) && (index <? o_end s)) sp with
       | c :: _ => if o_real c then let '(d', l, _) := do_split d (o_uid c) (offset_in_run sp c + (index - o_start c)) in (d', Some l)
                   else (d, None)       (* unreachable: a preceding span ends at index, so none strictly contains it *)
       | [] => if Nat.eqb index 0 then (d, option_map o_uid (find o_real sp))
-              else (d, option_map o_uid (last_opt (filter (fun s => o_real s && (o_end s <? index)) sp)))
+              else gap_anchor d sp index
       end
   | None =>
       match filter (fun s => (o_start s <? index) && (index <? o_end s)) sp with
       | c :: _ =>
           if o_real c then let '(d', l, _) := do_split d (o_uid c) (offset_in_run sp c + (index - o_start c)) in (d', Some l)
           else if Nat.eqb index 0 then (d, option_map o_uid (find o_real sp))
-          else (d, option_map o_uid (last_opt (filter (fun s => o_real s && (o_end s <? index)) sp)))
+          else gap_anchor d sp index
       | [] => if Nat.eqb index 0 then (d, option_map o_uid (find o_real sp))
-              else (d, option_map o_uid (last_opt (filter (fun s => o_real s && (o_end s <? index)) sp)))
+              else gap_anchor d sp index
       end
   end.
 
